@@ -830,6 +830,10 @@ func (mgr *Manager) updateTagJob(name string, t tag, tagDetails map[string]query
 			mgr.tags[name] = &t
 			if !(mgr.updatedStreamsDuringTaggingJob.IsZero() && mgr.resetStreamsDuringTaggingJob.IsZero() && mgr.addedStreamsDuringTaggingJob.IsZero()) {
 				mgr.invalidateTags(mgr.updatedStreamsDuringTaggingJob, mgr.resetStreamsDuringTaggingJob, mgr.addedStreamsDuringTaggingJob)
+			} else {
+				// a tag this one references may have been edited while the job
+				// ran: its streams are pending again and so are ours
+				mgr.inheritTagUncertainty()
 			}
 			if err := mgr.saveState(); err != nil {
 				log.Printf("updateTagJob failed, unable to save state: %q", err)
